@@ -3,11 +3,11 @@ package wsx
 import (
 	"encoding/base64"
 	"fmt"
-	"runtime"
 	"sort"
 	"strconv"
 	"time"
 
+	"Havoc/cmd/server"
 	"Havoc/pkg/agent"
 	"Havoc/pkg/packager"
 
@@ -82,25 +82,6 @@ func BarrierPkg(user, text string) packager.Package {
 	return p
 }
 
-// QuiesceTo waits until the goroutine count is baseline+extra (extra = handlers and
-// harness readers the caller knows to be alive).
-func (f *Fixture) QuiesceTo(extra int, d time.Duration) bool {
-	deadline := time.Now().Add(d)
-	sleep := 100 * time.Microsecond
-	for {
-		if runtime.NumGoroutine() <= f.baseline+extra {
-			return true
-		}
-		if time.Now().After(deadline) {
-			return false
-		}
-		time.Sleep(sleep)
-		if sleep < 5*time.Millisecond {
-			sleep *= 2
-		}
-	}
-}
-
 // HalfClose shuts down our sending direction: the server reads everything we sent and
 // then EOF, while what it writes still reaches us.
 func (c *Client) HalfClose() {
@@ -160,6 +141,7 @@ type Snapshot struct {
 	DBAgents   []string
 	SvcAgents  []string
 	SvcListen  []string
+	AuthClients []string // authenticated client records: "user@peer-address"
 }
 
 func (f *Fixture) Snapshot() Snapshot {
@@ -177,6 +159,13 @@ func (f *Fixture) Snapshot() Snapshot {
 	for _, e := range ts.EventsList {
 		s.Events = append(s.Events, Proj(e))
 	}
+	ts.Clients.Range(func(k, v any) bool {
+		if cl := v.(*server.Client); cl.Authenticated {
+			s.AuthClients = append(s.AuthClients, cl.Username+"@"+cl.GlobalIP)
+		}
+		return true
+	})
+	sort.Strings(s.AuthClients)
 	s.DBListener = ts.DB.ListenerNames()
 	sort.Strings(s.DBListener)
 	for _, a := range ts.DB.AgentAll() {
@@ -222,6 +211,8 @@ func (a Snapshot) Diff(b Snapshot) (string, string) {
 		return "db-agents", fmt.Sprintf("%v -> %v", a.DBAgents, b.DBAgents)
 	case !cmp(a.SvcAgents, b.SvcAgents):
 		return "service-agents", fmt.Sprintf("%v -> %v", a.SvcAgents, b.SvcAgents)
+	case !cmp(a.AuthClients, b.AuthClients):
+		return "authenticated-clients", fmt.Sprintf("%v -> %v", a.AuthClients, b.AuthClients)
 	case !cmp(a.SvcListen, b.SvcListen):
 		return "service-listeners", fmt.Sprintf("%v -> %v", a.SvcListen, b.SvcListen)
 	}
